@@ -101,6 +101,10 @@ def mk_sel(c, a, b):
         return mk_and(c, a)
     if a == TRUE and is_bool_term(b):
         return mk_or(c, b)
+    if a == FALSE and is_bool_term(b):
+        return mk_and(mk_not(c), b)
+    if b == TRUE and is_bool_term(a):
+        return mk_or(mk_not(c), a)
     return ('sel', c, a, b)
 
 
